@@ -4,8 +4,8 @@ PROPS = {}
 
 PROPS["C18"] = dict(
     pkg="value", test="TestC18", engine="value",
-    quick=dict(checks=20000, shards=2), thorough=dict(checks=1600000, shards=16),
-    nt_floor=dict(quick=3000, thorough=100000),
+    quick=dict(checks=200000, shards=4), thorough=dict(checks=1600000, shards=16),
+    nt_floor=dict(quick=10500, thorough=100000),
     must_classes=["indent<0", "indent=0", "indent>0", "sorted", "unsorted", "escape", "adjacent-containers",
                   "empty-container", "symbol", "var", "non-name-key(json-only)", "invalid-utf8(json-only)"],
     fuzz=[("FuzzC18Text", 90)],
@@ -31,8 +31,8 @@ EXEC_ASSUME = ["reference executor in harness/hx/refexec.go implements GraphQL s
 
 PROPS["C01"] = dict(
     pkg="exec", test="TestC01", engine="exec",
-    quick=dict(checks=6000, shards=3), thorough=dict(checks=480000, shards=16),
-    nt_floor=dict(quick=1500, thorough=100000),
+    quick=dict(checks=60000, shards=4), thorough=dict(checks=480000, shards=16),
+    nt_floor=dict(quick=5250, thorough=100000),
     must_classes=["strategy=R", "strategy=A+any", "strategy=X", "alias", "inline-fragment", "named-fragment", "list-of-list",
                   "null-element", "empty-list", "cyclic-or-shared-revisit", "multi-op", "op-unknown", "op-ambiguous", "merged-key",
                   "abstract-hop", "fragment-cond-differs-and-applies", "args", "variables"],
@@ -52,8 +52,8 @@ PROPS["C01"] = dict(
 
 PROPS["C09"] = dict(
     pkg="exec", test="TestC09", engine="exec",
-    quick=dict(checks=4000, shards=2), thorough=dict(checks=320000, shards=16),
-    nt_floor=dict(quick=1500, thorough=100000),
+    quick=dict(checks=40000, shards=4), thorough=dict(checks=320000, shards=16),
+    nt_floor=dict(quick=5250, thorough=100000),
     must_classes=["strategy=R", "strategy=X"],
     exhaustive_key="table_cases_enumerated", extra_max=["table_rows", "table_cases_enumerated"],
     level="exploration",
@@ -72,8 +72,8 @@ PROPS["C09"] = dict(
 
 PROPS["C05"] = dict(
     pkg="exec", test="TestC05", engine="exec",
-    quick=dict(checks=6000, shards=3), thorough=dict(checks=320000, shards=16),
-    nt_floor=dict(quick=1500, thorough=80000),
+    quick=dict(checks=60000, shards=4), thorough=dict(checks=320000, shards=16),
+    nt_floor=dict(quick=5250, thorough=80000),
     must_classes=["strategy=R", "strategy=X", "leaf-unrepresentable", "leaf-borderline(shape-only)", "enum-undeclared-name",
                   "list-rep=[]string", "list-rep=[]int", "list-rep=[]float64", "list-rep=[]time.Time"],
     level="exploration",
@@ -92,8 +92,8 @@ PROPS["C05"] = dict(
 
 PROPS["C06"] = dict(
     pkg="exec", test="TestC06", engine="exec", own_loop=True,
-    quick=dict(checks=1800, shards=3), thorough=dict(checks=32000, shards=16),
-    nt_floor=dict(quick=1500, thorough=80000),
+    quick=dict(checks=6000, shards=4), thorough=dict(checks=32000, shards=16),
+    nt_floor=dict(quick=3500, thorough=80000),
     must_classes=["fault-kind=err", "fault-kind=group", "fault-kind=ext", "fault-kind=nth", "fault-kind=coerce", "faults>=2",
                   "failure-inside-list", "failure-with-named-fragment-in-play"],
     level="fault_enumeration",
@@ -113,8 +113,8 @@ PROPS["C06"] = dict(
 
 PROPS["C10"] = dict(
     pkg="exec", test="TestC10", engine="exec",
-    quick=dict(checks=6000, shards=3), thorough=dict(checks=320000, shards=16),
-    nt_floor=dict(quick=1500, thorough=80000),
+    quick=dict(checks=60000, shards=4), thorough=dict(checks=320000, shards=16),
+    nt_floor=dict(quick=5250, thorough=80000),
     must_classes=["defect=unknown-field", "defect=undeclared-arg", "defect=omitted-required-arg", "defect=unknown-directive",
                   "defect=misplaced-directive", "defect=undefined-condition-inline", "defect=undefined-condition-fragment",
                   "container=object", "container=interface", "container=root-operation-type", "partial-data-kept", "document-rejected"],
@@ -135,8 +135,8 @@ PROPS["C10"] = dict(
 
 PROPS["C04"] = dict(
     pkg="exec", test="TestC04", engine="exec",
-    quick=dict(checks=30000, shards=3), thorough=dict(checks=3200000, shards=16),
-    nt_floor=dict(quick=8000, thorough=400000),
+    quick=dict(checks=240000, shards=4), thorough=dict(checks=3200000, shards=16),
+    nt_floor=dict(quick=22400, thorough=400000),
     must_classes=["channel=literal", "channel=var", "channel=default", "channel=nested", "verdict=good", "verdict=bad", "verdict=either",
                   "resolver-invoked", "representable-but-rejected", "list-type", "base=In0", "base=In2", "base=E0", "base=Time", "strategy=R", "strategy=A",
                   "strategy=X", "go-inputs=true", "go-inputs=false"],
@@ -161,8 +161,8 @@ PROPS["C04"] = dict(
 
 PROPS["C11"] = dict(
     pkg="exec", test="TestC11", engine="exec",
-    quick=dict(checks=3000, shards=3), thorough=dict(checks=240000, shards=16),
-    nt_floor=dict(quick=1000, thorough=60000),
+    quick=dict(checks=15000, shards=4), thorough=dict(checks=240000, shards=16),
+    nt_floor=dict(quick=3500, thorough=60000),
     must_classes=["strategy=R", "strategy=A", "same-op-again", "other-op-of-same-document", "var-inside-object-literal",
                   "var-inside-list-literal", "fragment", "input-var", "step-with-errors"],
     level="exploration",
@@ -182,8 +182,8 @@ PROPS["C11"] = dict(
 
 PROPS["C07"] = dict(
     pkg="exec", test="TestC07", engine="exec",
-    quick=dict(checks=6000, shards=3), thorough=dict(checks=320000, shards=16),
-    nt_floor=dict(quick=800, thorough=40000),
+    quick=dict(checks=50000, shards=4), thorough=dict(checks=320000, shards=16),
+    nt_floor=dict(quick=2800, thorough=40000),
     must_classes=["mode=valid", "mode=faults", "mode=defect", "mode=malformed", "mode=badvars", "layout=single", "layout=pretty", "layout=argline",
                   "crlf", "comments", "commas", "bom", "rejected-before-execution", "located-field-error-multiline"],
     level="exploration",
@@ -205,8 +205,8 @@ PROPS["C07"] = dict(
 
 PROPS["C02"] = dict(
     pkg="exec", test="TestC02", engine="exec", own_loop=True,
-    quick=dict(checks=900, shards=3), thorough=dict(checks=48000, shards=16),
-    nt_floor=dict(quick=500, thorough=20000),
+    quick=dict(checks=7200, shards=4), thorough=dict(checks=48000, shards=16),
+    nt_floor=dict(quick=1400, thorough=20000),
     must_classes=["config=uniform-Resolver", "config=uniform-root-resolver", "config=uniform-reflection-auto", "config=uniform-reflection-registered",
                   "config=uniform-Resolver-with-reflective-poison", "config=mixed-any=true", "config=mixed-any=false", "mixed-families",
                   "registered-field-renames", "method-or-resolver-with-args", "variables", "fragments", "list"],
@@ -228,8 +228,8 @@ PROPS["C02"] = dict(
 
 PROPS["C08"] = dict(
     pkg="exec", test="TestC08", engine="exec", own_loop=True,
-    quick=dict(checks=2400, shards=3), thorough=dict(checks=160000, shards=16),
-    nt_floor=dict(quick=350, thorough=20000),
+    quick=dict(checks=20000, shards=4), thorough=dict(checks=160000, shards=16),
+    nt_floor=dict(quick=979, thorough=20000),
     must_classes=["config=reflection", "config=mixed-registered", "abstract-field-resolved", "fragment-cond-differs-and-applies", "fragment-not-applicable",
                   "__typename", "binding=name/X", "binding=go-short/X", "binding=go-pkg/X", "binding=go-full/X", "binding=register/X", "binding=name/UR",
                   "frag:interface-container/object-condition", "frag:union-container/object-condition", "frag:object-container/interface-condition",
@@ -254,8 +254,8 @@ SDL_ASSUME = ["generated schemas are well-formed by construction against the rul
 
 PROPS["C13"] = dict(
     pkg="sdl", test="TestC13", engine="sdl", own_loop=True,
-    quick=dict(checks=240, shards=3), thorough=dict(checks=24000, shards=16), timeout=dict(quick=600, thorough=3000),
-    nt_floor=dict(quick=3000, thorough=200000),
+    quick=dict(checks=960, shards=4), thorough=dict(checks=24000, shards=16), timeout=dict(quick=600, thorough=3000),
+    nt_floor=dict(quick=8400, thorough=200000),
     must_classes=["well-formed", "fuzzed-text-accepted(rechecked)"] + ["rule=R%d" % i for i in range(1, 9)],
     level="exploration",
     technique="generated well-formed schemas + exhaustive catalogue of single-rule mutations per schema (accept/reject oracle naming the offender) + independent re-checker of the rule catalogue over every accepted schema (also mutants and byte-mutated SDL)",
@@ -277,8 +277,8 @@ PROPS["C13"] = dict(
 
 PROPS["C15"] = dict(
     pkg="sdl", test="TestC15", engine="sdl",
-    quick=dict(checks=3000, shards=3), thorough=dict(checks=320000, shards=16), timeout=dict(quick=600, thorough=3000),
-    nt_floor=dict(quick=800, thorough=60000),
+    quick=dict(checks=9000, shards=4), thorough=dict(checks=320000, shards=16), timeout=dict(quick=600, thorough=3000),
+    nt_floor=dict(quick=1680, thorough=60000),
     must_classes=["text-needing-escape", "backslash", "triple-quote-in-description", "has:directive @", "has:schema", "has:union", "has:input", "has:=",
                   "ggqlgen-tool-case", "ggqlgen-files=2", "ggqlgen-input-without-directive-definitions"],
     level="exploration",
@@ -300,8 +300,8 @@ PROPS["C15"] = dict(
 
 PROPS["C16"] = dict(
     pkg="sdl", test="TestC16", engine="sdl",
-    quick=dict(checks=900, shards=3), thorough=dict(checks=96000, shards=16), timeout=dict(quick=600, thorough=3000),
-    nt_floor=dict(quick=500, thorough=50000),
+    quick=dict(checks=3600, shards=4), thorough=dict(checks=96000, shards=16), timeout=dict(quick=600, thorough=3000),
+    nt_floor=dict(quick=1400, thorough=50000),
     must_classes=["split-into-several-loads", "members-in-extend-blocks", "split+extend", "well-formed-set", "ill-formed-set", "ill-formed-all-rejected", "docs=3", "docs=4"],
     level="exploration",
     technique="metamorphic property testing: one generated definition set rendered in five arrangements (plain, permuted, split into 1-4 successive loads, members moved into extend blocks, both); accept/reject, canonical schema description, introspection and fixed requests must agree",
@@ -320,8 +320,8 @@ PROPS["C16"] = dict(
 
 PROPS["C14"] = dict(
     pkg="sdl", test="TestC14", engine="sdl",
-    quick=dict(checks=600, shards=3), thorough=dict(checks=64000, shards=16), timeout=dict(quick=600, thorough=3000),
-    nt_floor=dict(quick=300, thorough=30000),
+    quick=dict(checks=2400, shards=4), thorough=dict(checks=64000, shards=16), timeout=dict(quick=600, thorough=3000),
+    nt_floor=dict(quick=840, thorough=30000),
     must_classes=["failing-load", "successful-load", "failing-load-touches-existing-definitions"] + ["fail-class=" + c for c in
                   ["syntax", "undefined-reference", "duplicate-type", "duplicate-member-by-extend", "extend-missing-target", "extend-kind-mismatch",
                    "validation-rule", "schema-block-then-failure", "reader-fault", "second-extension-fails", "addtypes-duplicate"]],
@@ -344,8 +344,8 @@ PROPS["C14"] = dict(
 
 PROPS["C17"] = dict(
     pkg="sdl", test="TestC17", engine="sdl", own_loop=True,
-    quick=dict(checks=600, shards=3), thorough=dict(checks=64000, shards=16), timeout=dict(quick=600, thorough=3000),
-    nt_floor=dict(quick=500, thorough=50000),
+    quick=dict(checks=6000, shards=4), thorough=dict(checks=64000, shards=16), timeout=dict(quick=600, thorough=3000),
+    nt_floor=dict(quick=1400, thorough=50000),
     must_classes=["root=reflection", "root=resolver", "root=any", "includeDeprecated=true", "includeDeprecated=false", "includeDeprecated=absent",
                   "includeDeprecated=var-true", "includeDeprecated=var-false", "deprecated-member", "interface-with->=2-implementers", "wrapper-depth>=3",
                   "explicit-schema-block", "scalar-default", "non-scalar-default"],
@@ -370,8 +370,8 @@ PROPS["C17"] = dict(
 
 PROPS["C19"] = dict(
     pkg="sub", test="TestC19", engine="sub",
-    quick=dict(checks=3000, shards=3), thorough=dict(checks=320000, shards=16),
-    nt_floor=dict(quick=500, thorough=50000),
+    quick=dict(checks=30000, shards=4), thorough=dict(checks=320000, shards=16),
+    nt_floor=dict(quick=1750, thorough=50000),
     must_classes=["publish-with->=2-matches", "failing-delivery", "failing-delivery-not-last", "unsubscribe-proper-subset", "re-subscribe-after-removal",
                   "events-by=R", "events-by=X", "events-by=A"],
     level="exploration",
@@ -421,8 +421,8 @@ PROPS["C20"] = dict(
 
 PROPS["C12"] = dict(
     pkg="conc", test="TestC12", engine="conc", race=True,
-    quick=dict(checks=240, shards=3), thorough=dict(checks=32000, shards=16), timeout=dict(quick=900, thorough=3000),
-    nt_floor=dict(quick=150, thorough=20000),
+    quick=dict(checks=720, shards=4), thorough=dict(checks=32000, shards=16), timeout=dict(quick=900, thorough=3000),
+    nt_floor=dict(quick=210, thorough=20000),
     must_classes=["concurrent-goroutines>=2", "strategies=X", "strategies=RX", "strategies=A", "interfaces-and-unions", "yield-jitter", "goroutines=2", "goroutines=32"],
     level="exploration",
     technique="concurrency testing under the Go race detector: generated request mixes released together on a cold root (nothing lazily bound yet), each response compared with the same request run alone; yield hooks add scheduling jitter at the lazy-binding sites",
@@ -441,8 +441,8 @@ PROPS["C12"] = dict(
 
 PROPS["C03"] = dict(
     pkg="crash", test="TestC03", engine="crash",
-    quick=dict(checks=2400, shards=4), thorough=dict(checks=480000, shards=16), timeout=dict(quick=900, thorough=6000),
-    nt_floor=dict(quick=1200, thorough=200000),
+    quick=dict(checks=4000, shards=4), thorough=dict(checks=480000, shards=16), timeout=dict(quick=900, thorough=6000),
+    nt_floor=dict(quick=2100, thorough=200000),
     must_classes=["target=sdl", "target=exe", "target=value", "target=writer", "kind=exe-adversarial", "kind=exe-mutated", "kind=exe-soup", "kind=exe-valid-badvars",
                   "kind=sdl-mutated", "kind=sdl-soup", "kind=sdl-valid", "kind=value-soup", "kind=bytes", "kind=deep-nesting", "kind=exe-corpus",
                   "sdl-accepted", "sdl-printed-and-introspected", "exe-parsed", "exe-resolved-clean", "exe-resolved-with-errors", "value-parsed",
